@@ -42,6 +42,7 @@ TypeRoute(ty) ==
 
 Modes == {"accept", "never", "dynamic", "cap"}
 \* the filtering stages: register_callsite = never / enabled() = false / max-level hint below the level
+\* (a fourth stage, the compile-time cap STATIC_MAX_LEVEL, is conjoined by the trace specification from the build's value)
 Enabled(mode, level, cap) == mode = "accept" \/ (mode = "cap" /\ level <= cap)
 
 Present(f) == f.kind # "empty"
